@@ -69,6 +69,8 @@ class Ctx:
                 raise CheckError("extractor blind: universe %r below floors (config %s)" % (u, config))
             if v.prog.duplicate_keys:
                 self.notes.append("duplicate function keys in %s: %s" % (config, sorted(v.prog.duplicate_keys)))
+            if getattr(v.prog, "reloc_report", None):
+                self.notes.append("types that moved to another module, analysed under their reviewed path (config %s): %s" % (config, "; ".join("%s (now %s)" % x for x in v.prog.reloc_report)))
             if v.prog.alias_report:
                 self.notes.append("moved / renamed functions (config %s): %s" % (config, "; ".join(v.prog.alias_report)))
             if v.prog.closure_report:
